@@ -78,8 +78,11 @@ class Run:
         self.result = None
 
 
-def explore_session(ctx, n_events, n_inject, hold=9, kinds=None, inject_kinds=('incoming', 'teardown', 'reestablish'), attempts=1):
+def explore_session(ctx, n_events, n_inject, hold=9, kinds=None, inject_kinds=('incoming', 'teardown', 'reestablish'), attempts=1, auto_as=False):
     conf = S.mk_conf(local_as=LOCAL_AS, peer_as=PEER_AS, hold=hold, families=('ipv4 unicast',), routes=('route 10.9.0.0/24 next-hop 192.0.2.9',), route_refresh=True)
+    if auto_as:
+        # `local-as auto`: ExaBGP mirrors the peer's AS, so it READS the peer's OPEN first, still in CONNECT, and sends its own after
+        conf = conf.replace('local-as %d;' % LOCAL_AS, 'local-as auto;')
     neighbor = S.neighbor_from(conf)
     neighbor.api = dict(neighbor.api)
     neighbor.api['neighbor-changes'] = True
@@ -188,8 +191,8 @@ def judge_fsm(ctx, run):
 CORE_KINDS = ['open', 'keepalive', 'update', 'notification', 'eof']
 
 
-def h_session(ctx, n_events, n_inject, hold=9, attempts=1, kinds=None):
-    run = explore_session(ctx, n_events, n_inject, hold, kinds=kinds, attempts=attempts)
+def h_session(ctx, n_events, n_inject, hold=9, attempts=1, kinds=None, auto_as=False):
+    run = explore_session(ctx, n_events, n_inject, hold, kinds=kinds, attempts=attempts, auto_as=auto_as)
     if run.attempts > 1:
         ctx.cover('reconnected')
         if [t for t in run.world.fsm].count(('OPENCONFIRM', 'ESTABLISHED')) > 1:
@@ -206,6 +209,7 @@ def units(tier):
           Unit('session/e3-i1', lambda ctx: h_session(ctx, 3, 1), must_cover=('established', 'never-established'), max_paths=300000, max_seconds=600, weight=80)]
     # negotiated Hold Time 0 (no keepalive timers): the OPENCONFIRM -> ESTABLISHED step must still wait for the peer's KEEPALIVE
     us.append(Unit('session/e3-i0-h0', lambda ctx: h_session(ctx, 3, 0, hold=0), must_cover=('established', 'never-established'), max_paths=300000, max_seconds=600, weight=30))
+    us.append(Unit('session/auto-as-e3-i0', lambda ctx: h_session(ctx, 3, 0, auto_as=True), must_cover=('established', 'never-established'), max_paths=300000, max_seconds=600, weight=30))
     # several connection attempts of one Peer (what Peer.run() does): state that outlives a session (stats, API up/down)
     us.append(Unit('attempts/e6-a3', lambda ctx: h_session(ctx, 6, 0, attempts=3, kinds=CORE_KINDS), must_cover=('established', 'reconnected', 'established-twice'),
                    max_paths=300000, max_seconds=600, weight=60))
